@@ -881,7 +881,7 @@ UBadOf(i) ==
                           class |-> IF HasQuestion(s.id) THEN "unit:error-id-with-?-refused" ELSE "unit:refused:" \o s.text \o s.id]}
      ELSE {[st |-> o.st, s |-> o.s, f |-> j, sup |-> s, find |-> st.finds[j], expected |-> row[j], got |-> IF j \in hit THEN "yes" ELSE "no",
             class |-> IF StarStarInside(s.id) /\ row[j] = "yes" THEN "unit:double-star-inside-id-matches-nothing"
-                      ELSE "unit:" \o s.type \o ":expected-" \o row[j] \o ":" \o (IF s.via = "line" THEN s.text ELSE s.id \o ":" \o s.file \o ":" \o s.sym)]
+                      ELSE "unit:" \o o.st \o ":" \o s.type \o ":specified-" \o row[j]]
              : j \in {j \in 1..Len(st.finds) : (row[j] = "yes" /\ j \notin hit) \/ (row[j] = "no" /\ j \in hit)}}
 UBad == UNION {UBadOf(i) : i \in 1..Len(UObs)}
 UCount(v) == FoldLeft(LAMBDA a, b : a + b, 0, [i \in 1..Len(UObs) |-> Cardinality({j \in 1..Len(URows[i]) : URows[i][j] = v})])
